@@ -98,3 +98,26 @@ package obfs4
 //@ loop 1:
 //@   invariant regManager != nil && (cap(regs) == 0 || fresh(regs))
 //@   invariant forall i int :: 0 <= i && i < len(regs) ==> (exists k string :: k in validRegs(regManager, darkDecoyAddr) && len(k) == 52 && regs[i] == validRegs(regManager, darkDecoyAddr)[k])
+
+// ---------------- C01: destination port and absent parameters (obfs4) ----------------
+// Same rule on both sides: 443 unless the registration's parameters ask for randomisation (clients >= 3), and then the
+// port IS the seeded draw over this transport's range, unmodified. A registration without parameters has none.
+//@ import anypb "google.golang.org/protobuf/types/known/anypb"
+//@ import pb "github.com/refraction-networking/conjure/proto"
+//@ func (t Transport) GetDstPort(libVersion uint, seed []byte, params any) (uint16, error)
+//@   atcall PortSelectorRange before: assert @C01: arg0 == portRangeMin && arg1 == portRangeMax && arg2 == seed && libVersion >= 3
+//@   atcall PortSelectorRange after: snap sel := res0
+//@   atcall PortSelectorRange after: snap selErr := res1
+//@   ensures @C01: libVersion < 3 || params == nil ==> result0 == 443 && result1 == nil
+//@   ensures @C01: defined(sel) ==> result0 == sel && result1 == selErr
+//@   ensures @C01: !defined(sel) && result1 == nil ==> result0 == 443
+//@   ensures @C01: libVersion >= 3 && typeis(params, *pb.GenericTransportParams) && unboxptr(params, *pb.GenericTransportParams) != nil && unboxptr(params, *pb.GenericTransportParams).RandomizeDstPort != nil && *unboxptr(params, *pb.GenericTransportParams).RandomizeDstPort ==> defined(sel)
+//@ func (t *ClientTransport) GetDstPort(seed []byte) (uint16, error)
+//@   requires t != nil
+//@   atcall PortSelectorRange before: assert @C01: arg0 == portRangeMin && arg1 == portRangeMax && arg2 == seed
+//@   atcall PortSelectorRange after: snap sel := res0
+//@   atcall PortSelectorRange after: snap selErr := res1
+//@   ensures @C01: old(t.sessionParams == nil || t.sessionParams.RandomizeDstPort == nil || !*t.sessionParams.RandomizeDstPort) ==> result0 == 443 && result1 == nil
+//@   ensures @C01: old(t.sessionParams != nil && t.sessionParams.RandomizeDstPort != nil && *t.sessionParams.RandomizeDstPort) ==> defined(sel) && result0 == sel && result1 == selErr
+//@ func (t Transport) ParseParams(libVersion uint, data *anypb.Any) (any, error)
+//@   ensures @C01: data == nil ==> result0 == nil && result1 == nil
